@@ -1730,7 +1730,7 @@ class Engine:
             j = z3.Int(fresh_name('in_j'))
             return z3.Exists([j], z3.And(0 <= j, j < cont.len, z3.Select(cont.arr, j) == to_z3(x, cont.et)))
         if isinstance(cont, z3.ArrayRef) and cont.sort().range() == z3.BoolSort():
-            return z3.Select(cont, to_z3(x))
+            return z3.Select(cont, to_z3(x, _type_of_sort(cont.sort().domain())))
         if isinstance(cont, z3.ExprRef) and cont.sort() == z3.StringSort() and (isinstance(x, str) or (isinstance(x, z3.ExprRef) and x.sort() == z3.StringSort())):
             return z3.Contains(cont, self.pystr(x))  # (C14) `sub in s` on str values: substring test
         raise Undecided('membership in %r' % (cont,))
